@@ -35,7 +35,19 @@ func typeID(t types.Type) string {
 	if a, ok := t.(*types.Alias); ok {
 		return typeID(types.Unalias(a))
 	}
-	id := types.TypeString(t, nil)
+	var id string
+	switch tt := t.(type) {
+	// ids of composite types are built from the (unaliased) ids of their parts, so that
+	// *Alias and *Target are the same type for the executor
+	case *types.Pointer:
+		id = "*" + typeID(tt.Elem())
+	case *types.Slice:
+		id = "[]" + typeID(tt.Elem())
+	case *types.Array:
+		id = fmt.Sprintf("[%d]%s", tt.Len(), typeID(tt.Elem()))
+	default:
+		id = types.TypeString(t, nil)
+	}
 	if _, ok := typeTab[id]; ok {
 		return id
 	}
